@@ -69,6 +69,40 @@ type mexprIn struct {
 	B      *mexprIn    `json:"b,omitempty"`
 	V      Ints        `json:"v"`
 	Paren  bool        `json:"paren"` // C13: this node is written in parentheses
+	// C05 only (the engine supports neither): vector-matching modifier of a binary operation; label_replace(e, dst, repl, src, regex)
+	Mod   *modIn `json:"mod,omitempty"`
+	Dst   Ints   `json:"dst,omitempty"`
+	Repl  Ints   `json:"repl,omitempty"`
+	Src   Ints   `json:"src,omitempty"`
+	Regex Ints   `json:"regex,omitempty"`
+}
+
+// modIn is `on (...)` / `ignoring (...)`, optionally followed by group_left / group_right with an include list.
+type modIn struct {
+	Op      string   `json:"op"` // on | ignoring
+	Labels  IntsList `json:"labels"`
+	Group   string   `json:"group"` // "" | left | right
+	Include IntsList `json:"include"`
+	// how the include list is written when it is empty: 0 absent, 1 "()"
+	EmptyParens int `json:"emptyParens"`
+}
+
+func (m *modIn) text() string {
+	names := func(l IntsList) string {
+		xs := make([]string, len(l))
+		for i := range l {
+			xs[i] = S(l[i])
+		}
+		return "(" + strings.Join(xs, ", ") + ")"
+	}
+	s := m.Op + " " + names(m.Labels)
+	if m.Group != "" {
+		s += " group_" + m.Group
+		if len(m.Include) > 0 || m.EmptyParens == 1 {
+			s += " " + names(m.Include)
+		}
+	}
+	return s
 }
 
 type evalIn struct {
@@ -162,7 +196,12 @@ func (e *mexprIn) text() string {
 		if e.Bool {
 			op += " bool"
 		}
+		if e.Mod != nil {
+			op += " " + e.Mod.text()
+		}
 		return operandText(e.A) + " " + op + " " + operandText(e.B)
+	case "lrepl":
+		return "label_replace(" + e.E.text() + ", " + strconv.Quote(S(e.Dst)) + ", " + strconv.Quote(S(e.Repl)) + ", " + strconv.Quote(S(e.Src)) + ", " + strconv.Quote(S(e.Regex)) + ")"
 	case "lit":
 		return decOf(e.V)
 	case "vector":
